@@ -48,7 +48,7 @@ def gen_setup(rng):
             out.append((rng.choice(list(pool)), counter[0]))
         return out
     places = {k: inst() for k in ["Tg", "In1", "In2", "In1.f", "In1.g", "In1.sub", "In2.h", "echo.a", "echo.b", "echo.c",
-                                  "Query.echo", "Out", "Out.v", "Query.obj", "En", "En.RED"]}
+                                  "Query.echo", "Out", "Out.v", "Query.obj", "En", "En.RED", "Out.vs", "Query.objs"]}
     return pool, places
 
 
@@ -63,15 +63,16 @@ scalar Tg%s
 enum En%s { RED%s GREEN }
 input In2%s { h: Tg%s }
 input In1%s { f: Tg%s g: [Tg]%s sub: In2%s }
-type Out%s { v: Tg%s e: En }
+type Out%s { v: Tg%s e: En vs: [Tg]%s }
 type Query {
   echo(a: In1%s, b: Tg%s, c: [Tg]%s): Tg%s
   obj: Out%s
+  objs: [Out]%s
 }
 """ % (ds, dirs_sdl(P["Tg"]), dirs_sdl(P["En"]), dirs_sdl(P["En.RED"]), dirs_sdl(P["In2"]), dirs_sdl(P["In2.h"]),
        dirs_sdl(P["In1"]), dirs_sdl(P["In1.f"]), dirs_sdl(P["In1.g"]), dirs_sdl(P["In1.sub"]), dirs_sdl(P["Out"]),
-       dirs_sdl(P["Out.v"]), dirs_sdl(P["echo.a"]), dirs_sdl(P["echo.b"]), dirs_sdl(P["echo.c"]), dirs_sdl(P["Query.echo"]),
-       dirs_sdl(P["Query.obj"]))
+       dirs_sdl(P["Out.v"]), dirs_sdl(P["Out.vs"]), dirs_sdl(P["echo.a"]), dirs_sdl(P["echo.b"]), dirs_sdl(P["echo.c"]),
+       dirs_sdl(P["Query.echo"]), dirs_sdl(P["Query.obj"]), dirs_sdl(P["Query.objs"]))
 
 
 # ---- value / literal generation: ("leaf", s) ("obj", [(k, v)]) ("lst", [v]) ("var", name)
@@ -234,7 +235,11 @@ async def run_schema(pool, P, cases):
 
     @Resolver("Query.obj", schema_name=name)
     async def obj(parent, args, ctx, info):     # pylint: disable=unused-variable
-        return {"v": "s"}
+        return {"v": "s", "vs": ["s", None, "t"]}
+
+    @Resolver("Query.objs", schema_name=name)
+    async def objs(parent, args, ctx, info):    # pylint: disable=unused-variable
+        return [{"v": "s"}, None, {"v": "t"}]
 
     engine = await create_engine(sdl_of(pool, P), schema_name=name)
     out = []
@@ -287,7 +292,7 @@ def gen_case(rng, pool):
         else:
             sels.append("...FE%d" % k)
             frags.append("fragment FE%d on Query { %s }" % (k, node))
-    q = "query %s { %s obj { v } } %s" % (decl, " ".join(sels), " ".join(frags))
+    q = "query %s { %s obj { v vs } objs { v } } %s" % (decl, " ".join(sels), " ".join(frags))
     return {"query": q, "variables": {n: raw_json(r) for n, _t, r in vars_}, "vars": vars_, "args": args, "qdirs": qdirs,
             "nodes": n_nodes}
 
@@ -351,6 +356,33 @@ def python_checks(pool, P, c, o):
     if not isinstance(data, dict) or data.get("v") != exp_v:
         P_.append("obj.v is %r, expected %r (field hooks innermost-declared first, then Tg output hooks)" % (
             data.get("v") if isinstance(data, dict) else data, exp_v))
+
+    def chain(v, field_place, parent_place):
+        for d, n in reversed([x for x in P[parent_place] if "on_field_execution" in pool[x[0]]]):
+            v = tag_value(d, v)
+        for d, n in [x for x in P["Out"] if "on_pre_output_coercion" in pool[x[0]]]:
+            v = tag_value(d, v)
+        for d, n in reversed([x for x in P[field_place] if "on_field_execution" in pool[x[0]]]):
+            v = tag_value(d, v)
+        for d, n in [x for x in P["Tg"] if "on_pre_output_coercion" in pool[x[0]]]:
+            v = tag_value(d, v)
+        return v
+    # list positions with NULL items: the item type's output hooks govern every item, null ones included
+    exp_vs = [chain("s", "Out.vs", "Query.obj"), None, chain("t", "Out.vs", "Query.obj")]
+    if not isinstance(data, dict) or data.get("vs") != exp_vs:
+        P_.append("obj.vs is %r, expected %r" % (data.get("vs") if isinstance(data, dict) else data, exp_vs))
+    exp_objs = [{"v": chain("s", "Out.v", "Query.objs")}, None, {"v": chain("t", "Out.v", "Query.objs")}]
+    got_objs = (o["response"].get("data") or {}).get("objs")
+    if got_objs != exp_objs:
+        P_.append("objs is %r, expected %r" % (got_objs, exp_objs))
+    for place, expected, what in (("Tg", 7, "echo, obj.v, the 3 items of obj.vs (one null), objs[0].v, objs[2].v"),
+                                  ("Out", 4, "obj and the 3 items of objs (one null)")):
+        for d, n in P[place]:
+            if "on_pre_output_coercion" in pool[d]:
+                k = log.count((d, "on_pre_output_coercion", n))
+                if k != expected:
+                    P_.append("on_pre_output_coercion of @%s(n: %d) on %s invoked %d times for %d governed values (%s)" % (
+                        d, n, place, k, expected, what))
     return P_
 
 
